@@ -412,3 +412,110 @@ Section list_attrs.
       cbn [list_offs] in Eo. rewrite El, Ho in Eo. injection Eo as <-. exists o, val, ps. repeat (split; [assumption|]). exact Hres.
   Qed.
 End list_attrs.
+
+(* ================================================================== (3) location lists holding expressions *)
+
+Module WS := GV.Spec.ListWrSpec.
+
+(* one expression inside a list entry that starts at section position `pos` with the bytes `h` before the
+   expression: what loc.rs write_expression appends is what C16's raw model appends for the byte string `d`
+   the expression is written as, and the operations (hence the fix-ups: laid_ref_fixups) are laid out from
+   pos + |h| + |length prefix| *)
+Lemma gentry_tail_raw dbg oe uo pos h ex bs fx :
+  gentry_tail dbg oe uo pos h ex = Ok (bs, fx) -> pos + OW.blen bs < 2 ^ 64 ->
+  exists p d offsets,
+    bs = h ++ p ++ d /\
+    LW.opt_expression true (OW.e_be oe) (OW.e_version oe) d = Ok (p ++ d) /\
+    OW.write_expr dbg oe (Some uo) true (pos + OW.blen h + OW.blen p) ex = Ok (d, fx) /\
+    OP.laid (OW.write_op dbg oe (Some uo) true offsets) (pos + OW.blen h + OW.blen p) ex offsets d fx.
+Proof.
+  intros H B. unfold gentry_tail in H. apply bind_ok_inv in H. destruct H as [[x fx'] [E H]].
+  cbn [fst snd] in H. injection H as <- <-.
+  unfold OW.write_loc_expression in E.
+  apply bind_ok_inv in E. destruct E as [size [Hs E]].
+  apply bind_ok_inv in E. destruct E as [p [Hp E]].
+  apply bind_ok_inv in E. destruct E as [[d f] [Hw E]]. injection E as <- <-.
+  rewrite !OP.blen_app in B.
+  rewrite (OP.expr_size_write _ _ _ _ _ _ _ _ Hw) in Hs by (unfold OW.blen, UnitWr.blen in *; lia). injection Hs as <-.
+  destruct (OP.write_expr_laid dbg oe (Some uo) true _ ex d f Hw ltac:(unfold OW.blen, UnitWr.blen in *; lia)) as [offsets [_ Hl]].
+  exists p, d, offsets. split; [reflexivity|]. split.
+  - unfold LW.opt_expression, LW.write_expression. change (N.of_nat (length d)) with (OW.blen d). rewrite Hp. reflexivity.
+  - split; [exact Hw|exact Hl].
+Qed.
+
+(* the C16 view of a location: the expression replaced by the bytes it is written as *)
+Inductive raw_rel (dbg : bool) (oe : OW.enc) (uo : OW.uoffs) : gloc -> WS.wloc -> Prop :=
+| rr_base a : raw_rel dbg oe uo (GLBase a) (WS.LBase a)
+| rr_pair b e ex d base fx : OW.write_expr dbg oe (Some uo) true base ex = Ok (d, fx) ->
+    raw_rel dbg oe uo (GLOffsetPair b e ex) (WS.LOffsetPair b e d)
+| rr_se b e ex d base fx : OW.write_expr dbg oe (Some uo) true base ex = Ok (d, fx) ->
+    raw_rel dbg oe uo (GLStartEnd b e ex) (WS.LStartEnd b e d)
+| rr_sl b n ex d base fx : OW.write_expr dbg oe (Some uo) true base ex = Ok (d, fx) ->
+    raw_rel dbg oe uo (GLStartLength b n ex) (WS.LStartLength b n d)
+| rr_def ex d base fx : OW.write_expr dbg oe (Some uo) true base ex = Ok (d, fx) ->
+    raw_rel dbg oe uo (GLDefault ex) (WS.LDefault d).
+
+(* where the expression of an entry written at `pos` as `bs` sits, with the fix-ups it pushed *)
+Definition entry_laid (dbg : bool) (oe : OW.enc) (uo : OW.uoffs) (pos : N) (g : gloc) (bs : list byte)
+           (fx : list OW.fixup) : Prop :=
+  match g with
+  | GLBase _ => fx = []
+  | GLOffsetPair _ _ ex | GLStartEnd _ _ ex | GLStartLength _ _ ex | GLDefault ex =>
+      exists h p d offsets, bs = h ++ p ++ d /\
+        OP.laid (OW.write_op dbg oe (Some uo) true offsets) (pos + OW.blen h + OW.blen p) ex offsets d fx
+  end.
+
+Lemma gwrite_entry_v5_raw dbg oe uo asz pos g bs fx :
+  gwrite_entry_v5 dbg oe uo asz pos g = Ok (bs, fx) -> pos + OW.blen bs < 2 ^ 64 ->
+  exists r, raw_rel dbg oe uo g r /\
+            LW.write_entry_v5 true (OW.e_be oe) (OW.e_version oe) asz r = Ok bs /\
+            entry_laid dbg oe uo pos g bs fx.
+Proof.
+  intros H B. destruct g as [a|b e ex|b e ex|b n ex|ex]; cbn [gwrite_entry_v5] in H.
+  - apply bind_ok_inv in H. destruct H as [x [E H]]. injection H as <- <-.
+    exists (WS.LBase a). split; [constructor|]. split; [|reflexivity]. cbn [LW.write_entry_v5]. rewrite E. reflexivity.
+  - apply bind_ok_inv in H. destruct H as [b1 [E1 H]]. apply bind_ok_inv in H. destruct H as [b2 [E2 H]].
+    destruct (gentry_tail_raw _ _ _ _ _ _ _ _ H B) as [p [d [offsets [-> [Ho [Hw Hl]]]]]].
+    exists (WS.LOffsetPair b e d). split; [econstructor; exact Hw|]. split.
+    + cbn [LW.write_entry_v5]. rewrite E1, E2. cbn [bind]. rewrite Ho. cbn [bind]. f_equal. cbn [app]. rewrite <- ?app_assoc. reflexivity.
+    + cbn [entry_laid]. do 4 eexists. split; [reflexivity|exact Hl].
+  - apply bind_ok_inv in H. destruct H as [b1 [E1 H]]. apply bind_ok_inv in H. destruct H as [b2 [E2 H]].
+    destruct (gentry_tail_raw _ _ _ _ _ _ _ _ H B) as [p [d [offsets [-> [Ho [Hw Hl]]]]]].
+    exists (WS.LStartEnd b e d). split; [econstructor; exact Hw|]. split.
+    + cbn [LW.write_entry_v5]. rewrite E1, E2. cbn [bind]. rewrite Ho. cbn [bind]. f_equal. cbn [app]. rewrite <- ?app_assoc. reflexivity.
+    + cbn [entry_laid]. do 4 eexists. split; [reflexivity|exact Hl].
+  - apply bind_ok_inv in H. destruct H as [b1 [E1 H]]. apply bind_ok_inv in H. destruct H as [b2 [E2 H]].
+    destruct (gentry_tail_raw _ _ _ _ _ _ _ _ H B) as [p [d [offsets [-> [Ho [Hw Hl]]]]]].
+    exists (WS.LStartLength b n d). split; [econstructor; exact Hw|]. split.
+    + cbn [LW.write_entry_v5]. rewrite E1, E2. cbn [bind]. rewrite Ho. cbn [bind]. f_equal. cbn [app]. rewrite <- ?app_assoc. reflexivity.
+    + cbn [entry_laid]. do 4 eexists. split; [reflexivity|exact Hl].
+  - destruct (gentry_tail_raw _ _ _ _ _ _ _ _ H B) as [p [d [offsets [-> [Ho [Hw Hl]]]]]].
+    exists (WS.LDefault d). split; [econstructor; exact Hw|]. split.
+    + cbn [LW.write_entry_v5]. rewrite Ho. cbn [bind]. f_equal.
+    + cbn [entry_laid]. do 4 eexists. split; [reflexivity|exact Hl].
+Qed.
+
+(* a written list as consecutive entries: (start position, entry, its bytes, its fix-ups) *)
+Inductive list_laid (dbg : bool) (oe : OW.enc) (uo : OW.uoffs) : N -> list gloc -> list (list byte) -> list OW.fixup -> Prop :=
+| ll_nil pos : list_laid dbg oe uo pos [] [] []
+| ll_cons pos g gs bs chunks fx fxs :
+    entry_laid dbg oe uo pos g bs fx -> list_laid dbg oe uo (pos + OW.blen bs) gs chunks fxs ->
+    list_laid dbg oe uo pos (g :: gs) (bs :: chunks) (fx ++ fxs).
+
+Lemma gwrite_list_v5_raw dbg oe uo asz : forall l pos bs fx,
+  gwrite_list_v5 dbg oe uo asz pos l = Ok (bs, fx) -> pos + OW.blen bs < 2 ^ 64 ->
+  exists raws chunks,
+    Forall2 (raw_rel dbg oe uo) l raws /\
+    LW.write_list_v5 true (OW.e_be oe) (OW.e_version oe) asz raws = Ok bs /\
+    bs = concat chunks ++ [n2b 0] /\ list_laid dbg oe uo pos l chunks fx.
+Proof.
+  induction l as [|g r IH]; intros pos bs fx H B; cbn [gwrite_list_v5] in H.
+  - injection H as <- <-. exists [], []. repeat split; constructor.
+  - apply bind_ok_inv in H. destruct H as [[eb ef] [E H]]. apply bind_ok_inv in H. destruct H as [[rb rf] [Er H]].
+    cbn [fst snd] in *. injection H as <- <-. rewrite OP.blen_app in B.
+    destruct (gwrite_entry_v5_raw _ _ _ _ _ _ _ _ E ltac:(unfold OW.blen, UnitWr.blen in *; lia)) as [x [Hx [Hwx Hel]]].
+    destruct (IH _ _ _ Er ltac:(unfold OW.blen, UnitWr.blen in *; lia)) as [raws [chunks [HF [Hw [-> Hll]]]]].
+    exists (x :: raws), (eb :: chunks). split; [constructor; assumption|]. split.
+    + cbn [LW.write_list_v5]. rewrite Hwx. cbn [bind]. rewrite Hw. reflexivity.
+    + split; [cbn [concat]; now rewrite app_assoc|]. constructor; assumption.
+Qed.
